@@ -103,6 +103,18 @@ check("C10", "exploration",
       "ASCII values without '@'. camelize/dasherize/underscorize reference = heck.",
       "DESIGN.md 4 (C10)", "E4 product enumerator")
 
+check("C14", "exploration",
+      "deviation-bounded exhaustive enumeration of chunk schedules of compressed streams on the real decode/filter/encode chain, independent-decoder oracle",
+      "6 bodies (half with 2/3/4-byte characters, one empty) x gzip/zlib/brotli streams produced at several levels / window sizes x 3 filter lists, Content-Encoding in both letter cases. Per stream: the single-chunk schedule, ALL partitions with one cut, an empty chunk at every cut and at both ends, ALL uniform strides 1..n (stride 1 = byte at a time) and a lattice of two-cut partitions (thorough: ALL partitions with <=2 cuts). The concatenated output must be accepted by an independent decoder as exactly one complete stream (no error, no trailing bytes) whose plaintext equals the same filters applied to the plain body. Unsupported / composite encodings (identity, compress, zstd, 'gzip, br', x-gzip, empty) must build no filter (natively and through Action::create_filter_body) and pass opaque bytes through.",
+      "Codec state is opaque, so there is no state merging and the bound is the number of cuts, not all partitions. flate2 and brotli are trusted as producers and decoders.",
+      "DESIGN.md 3.3 (E3'), 4 (C14)", "E3' deviation-bounded chunker")
+
+check("C15", "exploration",
+      "exhaustive enumeration of generated DOM trees x filter lists, reference edit at the known tag spans",
+      "Documents are generated as trees and serialised by the harness: paths of depth 1-4 plus [html,head]; target content = every list of <=2 (quick) / <=3 (thorough) fillers over 10 fillers (text, entity, comment containing markup, p, p.k, span with quoted attribute, br, img/, upper-case EM, script containing '<'); every (pre, post) list of <=2 fillers around the path child one ancestor level at a time; upper-case and attribute-carrying path tags; replace on 2-3 sibling targets with separators, on void (meta) and self-closing targets; pairs of filters on [html,head] and [html,body,div] in both chain orders. Filters: append_child / prepend_child / replace x {no selector, selector matching a filler inside the target, selector matching nothing} x 2 values. The output must equal the reference splice (before the end tag / after the start tag / whole element for every sibling).",
+      "The generator never produces what the statement excludes (path tags elsewhere, repeated or void append/prepend targets).",
+      "DESIGN.md 4 (C15)", "E4 product enumerator")
+
 ALL = [f"C{n:02d}" for n in range(1, 20)]
 
 NOT_BUILT_REASON = "check not built yet in this round (planned, see DESIGN.md section 0); not claimed until its explorer exists and has been shown to detect a seeded change"
